@@ -186,4 +186,4 @@ def run_property(prop, tier, seed, scratch, update_baseline=False):
             'known_lines': known_lines, 'trusted': v['trusted'] + k.get('trusted', []), 'cmds': [v['cmd'], can['cmd']] + k.get('cmds', []),
             'canary': {kk: can[kk] for kk in ('canaries', 'failed_as_required', 'vacuous')}, 'rewrites': v['info']['counts'],
             'injected_rewrites': v['info']['rewrites'], 'bounded': k.get('bounded', []), 'fails': fails,
-            'verus_wall': v['run']['wall'], 'kani_wall': k.get('wall', 0)}
+            'verus_wall': v['run']['wall'], 'kani_wall': k.get('wall', 0), 'not_decided_dyn': k.get('not_decided', [])}
